@@ -194,6 +194,20 @@ def h_columns():
                   z3.BoolVal(cols[0] == ("n", "Mapped[builtins.int]", "mapped_column(use_existing_column=True)")), detail=repr(cols))
         ctx.check(f"{T}.create_builtin_column::optional-is-reflected-and-str-gets-a-length",
                   z3.BoolVal(cols[1] == ("s", "Mapped[typing.Optional[builtins.str]]", "mapped_column(String(255), use_existing_column=True)")), detail=repr(cols))
+        # whatever the column type is (builtin, datetime, an enum of some other module), the module it lives in is imported by
+        # the generated file: the annotation `Mapped[module.Type]` is resolved there
+        enumc = vm.alloc(vm.ext("object"), {"__name__": "Colour", "__module__": "vocabulary", "__qual__": "vocabulary.Colour"}, tag="enum-class")
+        whenc = vm.alloc(vm.ext("object"), {"__name__": "datetime", "__module__": "datetime", "__qual__": "datetime.datetime"}, tag="datetime-class")
+        vm.call_method(t, "create_builtin_column", W.field("colour", is_enum=True, type_endpoint=enumc))
+        vm.call_method(t, "create_builtin_column", W.field("ocolour", is_enum=True, is_optional=True, type_endpoint=enumc))
+        vm.call_method(t, "create_builtin_column", W.field("when", is_builtin_type=True, type_endpoint=whenc))
+        mods = [m for m in W.om.fields["imported_modules"].items]
+        cols = [cc(c) for c in t.fields["builtin_columns"].items]
+        ctx.check(f"{T}.create_builtin_column::the-module-of-every-column-type-is-imported",
+                  z3.BoolVal("vocabulary" in mods and "datetime" in mods and "builtins" in mods), detail=repr(mods))
+        ctx.check(f"{T}.create_builtin_column::an-enum-column-is-typed-by-the-enum-class",
+                  z3.BoolVal(cols[2][:2] == ("colour", "Mapped[vocabulary.Colour]") and cols[3][:2] == ("ocolour", "Mapped[typing.Optional[vocabulary.Colour]]")), detail=repr(cols[2:]))
+        del t.fields["builtin_columns"].items[2:]
         # JSON list / set of builtins
         listc, setc = vm.ext("list"), vm.ext("set")
         vm.call_method(t, "create_json_column", W.field("xs", is_container=True, container_type=listc, type_endpoint=intc))
